@@ -411,10 +411,13 @@ def ctx_of(bearer, pdu, label, extra=''):
     return f'{bearer.kind} mtu={bearer.pairing.mtu} sent[{label}]={pdu[:40].hex()}{"..." if len(pdu) > 40 else ""} {extra}'
 
 
-async def send_one(hs, bearer, pdu, label, trail, r):
+async def send_one(hs, bearer, pdu, label, trail, r, wait=True):
+    if bearer.dead:
+        r.ev('skipped_on_dead_bearer')
+        return
     if bearer.kind == 'eatt':
         r.ev('eatt_requests')
-    await hs.exchange(bearer, pdu, label, ctx_of(bearer, pdu, label))
+    await hs.exchange(bearer, pdu, label, ctx_of(bearer, pdu, label), wait)
     trail.append((bearer.kind, pdu[0] if pdu else -1, label))
 
 
@@ -469,7 +472,9 @@ async def seq_case(case, r: R):
             await send_one(hs, hs.fixed, ra.exchange_mtu(rng.choice(MTUS)), 'valid', trail, r)
             mtu_at = -1
             continue
-        bearer = rng.choice(bearers)
+        if not hs.alive:
+            break
+        bearer = rng.choice(hs.alive)
         style = rng.random()
         if style < 0.7:
             pdu, label = g.request(rng.choice(ops), bearer.pairing.mtu)
@@ -490,6 +495,16 @@ async def seq_case(case, r: R):
                            ' | '.join(f'[{l}]{p[:12].hex()}' for p, l in pdus))
             trail += [(bearer.kind, p[0] if p else -1, l) for p, l in pdus]
             i += k
+    # Exchange MTU is not allowed on an enhanced bearer (Part F 3.4.2): whatever the server
+    # answers, its later PDUs on that bearer must still fit the bearer's fixed ATT_MTU
+    longs = [m for m in hs.models if m.value is not None and len(m.value) >= 100 and g.rclass(m) == 'allowed']
+    for b in [x for x in hs.alive if x.kind == 'eatt']:
+        if longs and rng.random() < 0.6:
+            await send_one(hs, b, ra.exchange_mtu(rng.choice([185, 517, 65535])), 'on-enhanced-bearer', trail, r)
+            m = rng.choice(longs)
+            await send_one(hs, b, ra.read(m.handle), 'allowed', trail, r)
+            await send_one(hs, b, ra.read_multiple_variable([m.handle, m.handle]), 'all-allowed', trail, r)
+            r.ev('eatt_exchange_mtu_probes')
     await hs.finish()
     finish_case(case, r, hs, bearers, trail, info, enc, auth)
 
@@ -573,7 +588,8 @@ async def notify_case(case, r: R):
             # a request while an indication is outstanding must still be answered
             if rng.random() < 0.6:
                 b = rng.choice(bearers)
-                await send_one(hs, b, ra.read(m.handle), 'during-indication', trail, r)
+                # handle 3 = Device Name value of the built-in GAP service (world-readable)
+                await send_one(hs, b, ra.read(3), 'during-indication', trail, r, wait=False)
                 r.ev('requests_during_outstanding_indication')
             for b in pending:
                 r.ev('confirmations_sent')
